@@ -292,6 +292,167 @@ Proof.
 Qed.
 Print Assumptions C02_numpy_guards_satisfiable.
 
+(* ---- "in every view, with verbosity >= 1" (Diff/DiffTextEmpty.v) ----
+   The text view drops iterable_item_moved levels at verbose_level 1 (and values_changed ones at 0: the property
+   excludes 0), so "the text view is empty" is a weaker observation than "the tree is empty".  It is not weaker on
+   results of the diff: a tree whose text view is empty at verbosity >= 1 is empty (a moved level only arises after
+   an unbalanced opcode block, which itself reports an added / removed item) - for every tiling opcode oracle. *)
+From DD Require Diff.TextView Diff.DiffTextEmpty.
+
+Theorem C02_text_empty_is_tree_empty :
+  forall v hatom udiff ops excl c t1 t2,
+    1 <= v -> thr_num c <= thr_den c -> tiling ops -> wf t1 = true -> wf t2 = true ->
+    TextView.text_view v (fst (run_diff hatom udiff ops (fun _ => false) excl c t1 t2)) = [] ->
+    fst (run_diff hatom udiff ops (fun _ => false) excl c t1 t2) = [].
+Proof. exact DiffTextEmpty.text_empty_tree_empty. Qed.
+Print Assumptions C02_text_empty_is_tree_empty.
+
+(* both clauses on the TEXT view, every verbose_level >= 1 *)
+Theorem C02_copy_empty_text :
+  forall v hatom udiff ops excl c t,
+    thr_num c <= thr_den c -> tiling ops -> wf t = true ->
+    TextView.text_view v (fst (run_diff hatom udiff ops (fun _ => false) excl c t t)) = [].
+Proof. exact DiffTextEmpty.text_copy_empty. Qed.
+Print Assumptions C02_copy_empty_text.
+
+Theorem C02_empty_sound_text :
+  forall v hatom udiff ops excl c ok t1 t2,
+    1 <= v ->
+    (forall a b, ok a = true -> ok b = true -> hatom a = hatom b -> py_eq a b = true) -> valid_ops ops ->
+    wf t1 = true -> wf t2 = true ->
+    inputs_ok (keep_key c) ok t1 = true -> inputs_ok (keep_key c) ok t2 = true ->
+    TextView.text_view v (fst (run_diff hatom udiff ops (fun _ => false) excl c t1 t2)) = [] -> py_eqv t1 t2 = true.
+Proof. exact DiffTextEmpty.text_empty_sound. Qed.
+Print Assumptions C02_empty_sound_text.
+
+(* ---- datetimes, dates, times, timedeltas, Decimals INSIDE the model: the extended universe Diff/XuValue.v ----
+   Diff/XuModel.v is Diff/DiffModel.v over atoms extended by ADt (wall clock, optional UTC offset), ADate, ATime,
+   ATd, ADec (names are the same in the Xu* files, hence the qualified names here); the datetime comparer
+   normalises both sides to UTC (a naive datetime is DECLARED UTC) and reports the normalised values, the others
+   compare with Python's != ([XuValue.py_eq]: Decimals by exact value, aware datetimes / times by wall clock minus
+   offset, naive never == aware).  Tied to DeepDiff by the streams c02xu / c03xu of harness/xucommon.py; the old
+   model is the restriction to base values (Diff/XuEmbed.v). *)
+From DD Require Diff.XuValue Diff.XuTree Diff.XuModel Diff.XuEmpty Diff.XuHash Diff.XuHashProofs.
+
+Theorem C02x_copy_empty :
+  forall hatom udiff ops excl c (t : XuValue.value),
+    XuModel.thr_num c <= XuModel.thr_den c -> XuEmpty.tiling ops -> XuValue.wf t = true ->
+    fst (XuModel.run_diff hatom udiff ops (fun _ => false) excl c t t) = [].
+Proof. intros. apply XuEmpty.run_copy_empty; assumption. Qed.
+Print Assumptions C02x_copy_empty.
+
+(* soundness needs ONE more guard: the datetime LEAVES of the two inputs are all aware, or all naive
+   ([dt_kind k]; set members are under [ok], dict keys are compared by == as they are) *)
+Theorem C02x_empty_sound_partial :
+  forall hatom udiff ops excl c ok k (t1 t2 : XuValue.value),
+    (forall a b, ok a = true -> ok b = true -> hatom a = hatom b -> XuValue.py_eq a b = true) -> XuEmpty.valid_ops ops ->
+    XuValue.wf t1 = true -> XuValue.wf t2 = true ->
+    XuEmpty.inputs_ok (XuModel.keep_key c) ok (XuEmpty.dt_kind k) t1 = true ->
+    XuEmpty.inputs_ok (XuModel.keep_key c) ok (XuEmpty.dt_kind k) t2 = true ->
+    fst (XuModel.run_diff hatom udiff ops (fun _ => false) excl c t1 t2) = [] -> XuValue.py_eqv t1 t2 = true.
+Proof. intros. eapply XuEmpty.run_empty_sound_dt; eassumption. Qed.
+Print Assumptions C02x_empty_sound_partial.
+
+(* the datetime comparer, exactly: nothing is reported iff the two datetimes are == or one of them is naive and
+   shows the other's UTC wall clock *)
+Theorem C02x_datetime_leaf_exact :
+  forall udiff u1 o1 u2 o2 p,
+    XuModel.diff_atom udiff (fun _ => false) (XuValue.ADt u1 o1) (XuValue.ADt u2 o2) p p = [] <->
+    (XuValue.py_eq (XuValue.ADt u1 o1) (XuValue.ADt u2 o2) = true \/
+     XuEmpty.naive_is_utc_clock (XuValue.ADt u1 o1) (XuValue.ADt u2 o2)).
+Proof. exact XuEmpty.diff_datetime_nil_iff. Qed.
+Print Assumptions C02x_datetime_leaf_exact.
+
+Theorem C02x_guards_satisfiable :
+  XuEmpty.valid_ops XuEmpty.one_block /\ (forall a b, XuEmpty.inj_hash a = XuEmpty.inj_hash b -> a = b) /\
+  XuValue.wf XuEmpty.nv_t1 = true /\ XuValue.wf XuEmpty.nv_t2 = true /\
+  XuEmpty.inputs_ok (XuModel.keep_key (XuModel.mkCfg false 33 100 true)) XuEmpty.any_atom (XuEmpty.dt_kind true) XuEmpty.nv_t1 = true /\
+  XuEmpty.inputs_ok (XuModel.keep_key (XuModel.mkCfg false 33 100 true)) XuEmpty.any_atom (XuEmpty.dt_kind true) XuEmpty.nv_t2 = true /\
+  fst (XuModel.run_diff XuEmpty.inj_hash (fun _ _ => []) XuEmpty.one_block (fun _ => false) (fun _ => false) (XuModel.mkCfg false 33 100 true) XuEmpty.nv_t1 XuEmpty.nv_t2) = [] /\
+  XuValue.py_eqv XuEmpty.nv_t1 XuEmpty.nv_t2 = true /\ XuValue.value_eqb XuEmpty.nv_t1 XuEmpty.nv_t2 = false.
+Proof. exact XuEmpty.sound_guards_satisfiable. Qed.
+Print Assumptions C02x_guards_satisfiable.
+
+(* without the leaf guard: finding C02-NAIVE-AWARE inside the model - datetime(2024,5,17,22,15,34) against the same
+   wall clock with tzinfo=utc, bare and as a list item, both list modes, injective item hash: nothing reported, not == *)
+Theorem C02x_empty_sound_refuted_naive_aware :
+  XuValue.wf (XuValue.VList [XuValue.VAtom XuEmpty.na_naive]) = true /\ XuValue.wf (XuValue.VList [XuValue.VAtom XuEmpty.na_aware]) = true /\
+  (forall z, fst (XuModel.run_diff XuEmpty.inj_hash (fun _ _ => []) XuEmpty.one_block (fun _ => false) (fun _ => false) (XuModel.mkCfg z 33 100 false)
+                    (XuValue.VList [XuValue.VAtom XuEmpty.na_naive]) (XuValue.VList [XuValue.VAtom XuEmpty.na_aware])) = []) /\
+  (forall z, fst (XuModel.run_diff XuEmpty.inj_hash (fun _ _ => []) XuEmpty.one_block (fun _ => false) (fun _ => false) (XuModel.mkCfg z 33 100 false)
+                    (XuValue.VAtom XuEmpty.na_naive) (XuValue.VAtom XuEmpty.na_aware)) = []) /\
+  XuValue.py_eqv (XuValue.VList [XuValue.VAtom XuEmpty.na_naive]) (XuValue.VList [XuValue.VAtom XuEmpty.na_aware]) = false /\
+  XuValue.py_eq XuEmpty.na_naive XuEmpty.na_aware = false /\
+  XuEmpty.dt_same_kind XuEmpty.na_naive XuEmpty.na_aware = false.
+Proof. exact XuEmpty.empty_sound_refuted_naive_aware. Qed.
+Print Assumptions C02x_empty_sound_refuted_naive_aware.
+
+(* without the hash guard, with the model of the REAL item hash (Diff/XuHash.v: DeepHash's serialisation of set
+   members, for EVERY hasher and every str() oracle): finding C02-TIME-TZ-IN-SET - {time(1,2,3,tzinfo=utc)} vs
+   {time(1,2,3,tzinfo=+02:00)} and {time(1,2,3)} vs {time(1,2,3,tzinfo=utc)}: nothing reported, not == ... *)
+Theorem C02x_empty_sound_refuted_time_tz :
+  forall H xstr secs udiff ops excl c,
+  (forall frozen : bool, fst (XuModel.run_diff (XuHash.xhash_atom H xstr secs) udiff ops (fun _ => false) excl c
+      (if frozen then XuValue.VFrozen [XuHashProofs.t_utc] else XuValue.VSet [XuHashProofs.t_utc])
+      (if frozen then XuValue.VFrozen [XuHashProofs.t_p2] else XuValue.VSet [XuHashProofs.t_p2])) = []) /\
+  (forall frozen : bool, fst (XuModel.run_diff (XuHash.xhash_atom H xstr secs) udiff ops (fun _ => false) excl c
+      (if frozen then XuValue.VFrozen [XuHashProofs.t_naive] else XuValue.VSet [XuHashProofs.t_naive])
+      (if frozen then XuValue.VFrozen [XuHashProofs.t_utc] else XuValue.VSet [XuHashProofs.t_utc])) = []) /\
+  XuValue.py_eqv (XuValue.VSet [XuHashProofs.t_utc]) (XuValue.VSet [XuHashProofs.t_p2]) = false /\
+  XuValue.py_eqv (XuValue.VSet [XuHashProofs.t_naive]) (XuValue.VSet [XuHashProofs.t_utc]) = false /\
+  XuValue.wf (XuValue.VSet [XuHashProofs.t_utc]) = true /\ XuValue.wf (XuValue.VSet [XuHashProofs.t_p2]) = true /\
+  XuValue.wf (XuValue.VSet [XuHashProofs.t_naive]) = true.
+Proof. exact XuHashProofs.empty_sound_refuted_time_tz. Qed.
+Print Assumptions C02x_empty_sound_refuted_time_tz.
+
+(* ... and C02-NAIVE-AWARE for set members: a naive datetime member has the hash of the UTC-aware one *)
+Theorem C02x_empty_sound_refuted_naive_aware_in_set :
+  forall H xstr secs udiff ops excl c,
+  (forall frozen : bool, fst (XuModel.run_diff (XuHash.xhash_atom H xstr secs) udiff ops (fun _ => false) excl c
+      (if frozen then XuValue.VFrozen [XuEmpty.na_naive] else XuValue.VSet [XuEmpty.na_naive])
+      (if frozen then XuValue.VFrozen [XuEmpty.na_aware] else XuValue.VSet [XuEmpty.na_aware])) = []) /\
+  XuValue.py_eqv (XuValue.VSet [XuEmpty.na_naive]) (XuValue.VSet [XuEmpty.na_aware]) = false.
+Proof. exact XuHashProofs.empty_sound_refuted_naive_aware_in_set. Qed.
+Print Assumptions C02x_empty_sound_refuted_naive_aware_in_set.
+
+(* the extended model restricted to the values of Base/Value.v IS the model of the first part of this file
+   (Diff/XuEmbed.v, [emb]: atom by atom; for ALL values, cfg and oracles - an agreeing extended oracle exists for
+   every base oracle): the same levels are reported, so the correspondence of the old model also backs the new one,
+   and Python equality / well-formedness are preserved *)
+From DD Require Diff.XuEmbed.
+
+Theorem C02x_models_agree :
+  forall hatom udiff ops skip excl c hatomX opsX skipX exclX,
+    (forall a, hatomX (XuEmbed.emb_atom a) = hatom a) ->
+    (forall p xs ys, opsX (XuEmbed.emb_path p) (map XuEmbed.emb xs) (map XuEmbed.emb ys) = map XuEmbed.emb_op (ops p xs ys)) ->
+    (forall p, skipX (XuEmbed.emb_path p) = skip p) -> (forall p, exclX (XuEmbed.emb_path p) = excl p) ->
+    forall t1 t2,
+      XuModel.run_diff hatomX udiff opsX skipX exclX (XuEmbed.emb_cfg c) (XuEmbed.emb t1) (XuEmbed.emb t2) =
+      (map XuEmbed.emb_entry (fst (run_diff hatom udiff ops skip excl c t1 t2)),
+       map XuEmbed.emb_path (snd (run_diff hatom udiff ops skip excl c t1 t2))).
+Proof. exact XuEmbed.models_agree_run. Qed.
+Print Assumptions C02x_models_agree.
+
+Theorem C02x_agreeing_oracles_exist :
+  forall hatom ops skip excl,
+    exists (hatomX : XuValue.atom -> pystr) (opsX : XuValue.path -> list XuValue.value -> list XuValue.value -> list XuTree.opcode)
+           (skipX exclX : XuValue.path -> bool),
+      (forall a, hatomX (XuEmbed.emb_atom a) = hatom a) /\
+      (forall p xs ys, opsX (XuEmbed.emb_path p) (map XuEmbed.emb xs) (map XuEmbed.emb ys) = map XuEmbed.emb_op (ops p xs ys)) /\
+      (forall p, skipX (XuEmbed.emb_path p) = skip p) /\ (forall p, exclX (XuEmbed.emb_path p) = excl p).
+Proof. exact XuEmbed.agreeing_oracles_exist. Qed.
+Print Assumptions C02x_agreeing_oracles_exist.
+
+Theorem C02x_models_agree_on_emptiness_and_equality :
+  (forall hatom udiff ops excl c t1 t2,
+     fst (XuModel.run_diff (XuEmbed.lift_hatom hatom) udiff (XuEmbed.lift_ops ops) (fun _ => false) (XuEmbed.lift_path excl)
+            (XuEmbed.emb_cfg c) (XuEmbed.emb t1) (XuEmbed.emb t2)) = []
+     <-> fst (run_diff hatom udiff ops (fun _ => false) excl c t1 t2) = []) /\
+  (forall v w, XuValue.py_eqv (XuEmbed.emb v) (XuEmbed.emb w) = py_eqv v w) /\
+  (forall v, XuValue.wf (XuEmbed.emb v) = wf v).
+Proof. split; [exact XuEmbed.models_agree_empty_lifted|split; [exact XuEmbed.emb_py_eqv|exact XuEmbed.emb_wf]]. Qed.
+Print Assumptions C02x_models_agree_on_emptiness_and_equality.
+
 (* ------------------------------------------------------------------ *)
 (** EXTENSION beyond the property's stated domain: values holding INSTANCES OF CLASSES
     (objects with attributes, Obj/ObjValue.v [ovalue]).  The ordered diff on such values is the
